@@ -11,7 +11,7 @@ def run(ck):
                "by kind (live array/map/set, released, never-issued handle, word, value with spaces and syntax characters, empty, number, "
                "existing / missing path) x 5 contexts (top level, function, loop, function+loop+branch, 50 times in a row); leg B: each case on "
                "the real SDK in a fresh directory: variable map and handle-table size before/after; leg C: random sessions on one persistent "
-               "context validated by TLC. distinct_nontrivial = distinct (command, shape, context) cases + recorded invocations")
+               "context validated by TLC. distinct_nontrivial = distinct (command, shape, context) cases + recorded invocations; leg D: the script-command loop (eval_instructions) of every script-implemented command invoked by the repository's own test scripts is validated by RunLoop_Trace (its own store / goto rules) and every such invocation must leave the caller's variables unchanged")
     a = vlib.tlc("C19_MC", "C19_A.cfg", ck.wd, workers=4, timeout=600, coverage=True)
     ck.add_tlc(a, "A: wrapper protocol + case enumeration")
     counts = [int(x) for x in re.findall(r"\d+", list(a.tuples("COUNTS"))[0])]
@@ -38,5 +38,7 @@ def run(ck):
         ck.violation("scriptcmd:%s:%s" % (v["cmd"], "handle" if not v["handlesOK"] else ("variables" if not v["same"] or not v["noScope"] else "run")),
                      "%s %s: err=%r noScope=%s same=%s handles %s" % (v["cmd"], v["shape"], v["err"], v["noScope"], v["same"], v["handles"]), v)
     ck.notes["legC"] = {"sessions": s["sessions"], "invocations": s["events"], "seed": ck.seed}
+    import runloop
+    runloop.leg(ck, "C19")
     ck.assumptions += ["join_path with a value containing quotes / '#' never returns (its own while loop; recorded under C07/C09) and cannot be interrupted in-process: those cases are skipped here",
                        "wget (network) is excluded; the handle table size is read from Context.state as the property's observation point names it"]
